@@ -131,6 +131,27 @@ def observe(spec, path_dir, name):
         off2 = pipeline.guarded(lambda: p.get_translation(), 'translate')
         if off.ok and not (off2.ok and off2.value == off.value):
             off = off2
+    # the same report has to arrive through write_translation - onto a fresh path and onto a path that already holds a translation
+    # (of the harmless variant: gate disabled) - and the refused write must leave that file alone
+    if on.kind == pipeline.LIB_EXC and off.ok:
+        target = os.path.join(path_dir, name + '_out.py')
+        for existing in (False, True):
+            if existing:
+                with open(target, 'w', encoding='utf-8') as f:
+                    f.write(off.value)
+            elif os.path.exists(target):
+                os.remove(target)
+            pw = pipeline.make_parser(path, safety=True)
+            w = pipeline.guarded(lambda: pw.write_translation(target), 'translate')
+            if not (w.kind == pipeline.LIB_EXC and isinstance(w.exc, E2PyclSafetyException) and isinstance(on.exc, E2PyclSafetyException)
+                    and dict(w.exc.suspicious_cells) == dict(on.exc.suspicious_cells)):
+                on.second = w if w.kind != pipeline.LIB_EXC or not isinstance(w.exc, E2PyclSafetyException) else pipeline.Outcome(
+                    pipeline.VALUE, 'write_translation(existing=%s) reported %r' % (existing, dict(getattr(w.exc, 'suspicious_cells', {}))))
+                break
+            if existing:
+                with open(target, encoding='utf-8') as f:
+                    if f.read() != off.value:
+                        on.second = pipeline.Outcome(pipeline.VALUE, 'the refused write_translation changed the existing file')
     return on, off, E2PyclSafetyException
 
 
@@ -161,7 +182,7 @@ def judge(r, spec, expected, planted, on, off, SafetyExc, idx):
         r.nt((idx, 'innocent'))
     rep = pipeline.refusal_repeatable(on)
     if rep:
-        report(r, ID, None, case, rep, 'the safety exception again', monitor='gate-repeatable')
+        report(r, ID, None, case, rep, 'the same safety exception with the same report (asked again / through write_translation)', monitor='gate-repeatable')
     if off.kind == 'LIB_EXC' and isinstance(off.exc, SafetyExc):
         report(r, ID, None, case, off.brief(), 'no safety exception with the gate disabled', monitor='gate-disabled')
     else:
